@@ -620,6 +620,9 @@ func checkC05C06C07(h *History, sc *ScanCtx, g *GroupCtx, r *Report) {
 	if p.Band == "fast" || p.Band == "slow" {
 		sig += fmt.Sprintf(":clamp%s", bucket(int64(U-g.Cfg.Min-rateOf(g.Cfg, p.Band))))
 	}
+	if p.MemReq != nil && p.MemReq.Cmp(big.NewInt(92233720368547)) > 0 {
+		sig += ":requests-beyond-2^63/10^5-bytes"
+	}
 	r.Covered(P, sig)
 	r.Sample(P, fmt.Sprintf("case %s scan %d: u=%s band=%s U=%d T=%d min=%d taints=%d untaints=%d cloud=%v", h.Case, sc.Rec.No, ratStr(p.U), p.Band, U, T, g.Cfg.Min, adds, unt, g.IncreaseTried))
 
